@@ -5,6 +5,7 @@ import (
 	"strings"
 	"testing"
 	"time"
+	"verifharness/ragen"
 
 	"pgregory.net/rapid"
 
@@ -33,7 +34,7 @@ func genC17(t *rapid.T) C17Case {
 		lens = append(lens, 262144, 1048576, 1048577, 2097152)
 	}
 	c := C17Case{
-		Cmd:     rapid.SampledFrom([]string{"generate", "generate", "generate-include", "generate-include-pairs", "generate-include-except", "generate-definition", "format", "renumber", "copyright", "update-compare"}).Draw(t, "cmd"),
+		Cmd:     rapid.SampledFrom([]string{"generate", "generate", "generate-cmdline", "generate-include", "generate-include-pairs", "generate-include-except", "generate-definition", "format", "renumber", "copyright", "update-compare"}).Draw(t, "cmd"),
 		Long:    rapid.SampledFrom([]string{"entry", "entry", "comment"}).Draw(t, "long"),
 		Len:     rapid.SampledFrom(lens).Draw(t, "len"),
 		FinalNL: rapid.IntRange(0, 3).Draw(t, "finalnl") != 0,
@@ -178,6 +179,44 @@ func checkC17(c C17Case) Outcome {
 			if !matcher(w) {
 				out.Detail["missing"] = clip(w, 40)
 				out.Violation = fmt.Sprintf("exit 0 but entry %q is not accepted by the generated regex: input was silently truncated", clip(w, 40))
+				return out
+			}
+		}
+	case "generate-cmdline":
+		// the long entry is a command of a cmdline block with the CRS patterns: every character gets the evasion
+		// pattern behind it, the expression may exceed what the engine accepts; then the command must say so
+		cfg, _ := ragen.CRSLike()
+		tree := cli.Tree{"regex-assembly/toolchain.yaml": *cfg}
+		if err := tree.Write(root); err != nil {
+			panic(err)
+		}
+		// two sizes only: one the engine still accepts after expansion, one it does not
+		n := c.Len
+		if n > 200000 {
+			n = 400000
+		} else if n > 20000 {
+			n = 20000
+		}
+		long := strings.Repeat("q", n)
+		lines := append([]string{"before"}, "##!> cmdline unix", "inblock", long, "##!<", "after")
+		r := run(join(lines), "regex", "generate", "-")
+		out.Detail["exit"] = r.Exit
+		if r.Exit != 0 {
+			if r.Stdout != "" {
+				out.Violation = "generate failed but printed a regex"
+				return out
+			}
+			out.Labels = append(out.Labels, "loud-failure")
+			break
+		}
+		for _, w := range []string{"before", "after", "inblock"} {
+			m, err := reqv.FullMatch(r.Stdout, w)
+			if err != nil {
+				out.Inconclusive = "the oracle cannot compile the generated expression: " + err.Error()
+				break
+			}
+			if !m {
+				out.Violation = fmt.Sprintf("exit 0 but %q is not accepted by the generated regex: part of the input was silently dropped", w)
 				return out
 			}
 		}
